@@ -1,5 +1,6 @@
 """C07 — user-supplied strings can never add a command or change list framing."""
 import itertools
+import mpdgen as g
 from vlib import Failure, compare, finish, hexs, unhexs
 
 COQ_FILES = ["Bytes.v", "Tables.v", "CommandModel.v", "MpdTokenizer.v", "CommandProofs.v"]
@@ -19,8 +20,28 @@ def gen(ctx):
               "command_listx", "command_list_", "Command_list_end", "xcommand_list_end", "COMMAND_LIST_END",
               "command_list_end ", "status\nclose", "status\n", "\nstatus", "st atus", "status", "x" * 3000, "play1",
               "noidle", "idle", "日本", "a b", "close\r"]
+    for ch in g.TRICKY_CHARS:          # Unicode numerics/letters, case-folding characters, low-byte look-alikes of ASCII
+        names += ["x" + ch, "track" + ch, ch, ch + "x", "command_list" + ch, "find" + ch + "y"]
     for n in names:
         cases.append("cmd_build " + hexs(n))
+    # a line feed at every position of a long argument, after every kind of neighbour (a word-at-a-time scan must not miss
+    # one), through the string renderers (quoted) and the raw renderer (unquoted)
+    for pos in list(range(0, 40)) + [63, 64, 65, 127, 128, 255, 256, 257, 300, 1000]:
+        for prev in (b"", b"\x01", b"\x09", b"\x0b", b"a", b"\xff", b'"', b"\\"):
+            body = (b"q" * pos)[: max(0, pos - len(prev))] + prev + b"\n" + rng.choice([b"", b"kill", b"x" * 20, b"command_list_end"])
+            ty = rng.choice(["s", "c", "r", "r"])
+            try:
+                body.decode()
+            except UnicodeDecodeError:
+                ty = "r"
+            cases.append(" ".join(["cmd_args", hexs("find"), "s:" + hexs("a"), f"{ty}:{hexs(body)}", "s:" + hexs("fallback")]))
+    # long rejected arguments: whatever is kept for the error message, the command must be exactly as before
+    for ln in (100, 255, 256, 257, 258, 300, 511, 512, 513, 1000, 5000):
+        for where in ("front", "middle", "end"):
+            raw = b"x" * ln
+            i = {"front": 1, "middle": ln // 2, "end": ln - 1}[where]
+            raw = raw[:i] + b"\nkill\n" + raw[i:]
+            cases.append(" ".join(["cmd_args", hexs("sticker"), "s:" + hexs("comment"), f"{rng.choice(['s', 'r', 'cb'])}:{hexs(raw)}", "s:" + hexs("fallback")]))
     # argument sequences: accepted / rejected add_argument calls of every Argument kind
     lfs = ["\n", "\nx", "x\n", "a\nb", "a b\nc", "\n\n", '"\n"', "x\\\n"]
     oks = ["x", "a b", "", '"', "é", "\\", "a\rb", "0"]
